@@ -11,7 +11,56 @@ RULE = ("cases: 0 = all 1280 crypt-table entries + both fold tables (direct and 
 ASSUME = ["reference = crypt table regenerated from seed 0x00100001, HashString with ASCII-only fold, lookup3.c hashlittle2 transcribed (harness/vh-mpq/src/lib.rs)",
           "the 13 byte values that cannot occur in any &str (0xC0, 0xC1, 0xF5..0xFF) are unreachable through hash_string(&str) and covered only by the direct table comparison",
           "Jenkins fold direction (upper vs lower) is not fixed by the statement: either is accepted provided it is the same for every name",
-          "key 0 is an identity in this code by construction; inverse-ness is still checked for it"]
+          "key 0 is an identity in this code by construction; inverse-ness is still checked for it",
+          "thorough: the table case and 16 cipher-key cases are additionally interpreted by Miri (UB, overflow and debug assertions)"]
+
+
+def _miri_slice(res, tier, seed, scratch):
+    """Thorough: the cipher cases (every length 0..17 x 6 buffers, incl. the byte wrappers' tail paths) for 16 keys and the
+    table case, interpreted by Miri (dev profile: overflow checks and debug assertions on). UB report => violation;
+    a run that cannot be carried out => inconclusive."""
+    import os
+    import subprocess
+    from concurrent.futures import ThreadPoolExecutor
+    env = sup.cargo_env("", sup.TARGET_BASE + "-miri")
+    env["MIRIFLAGS"] = "-Zmiri-disable-isolation"
+    base = ["cargo", "+nightly", "miri", "run", "--offline", "-q", "-p", "vh-mpq", "--bin", "c04", "--"]
+    idxs = [0] + list(range(1000, 1016))
+    rb = {"property": "C04", "tier": tier, "seed": seed, "bin": "c04", "args": []}
+
+    def one(idx):
+        j = os.path.join(scratch, f"miri-{idx}.jsonl")
+        wd = os.path.join(scratch, f"miri-w{idx}")
+        os.makedirs(wd, exist_ok=True)
+        try:
+            p = subprocess.run(base + ["--tier", "quick", "--seed", str(seed), "--only", str(idx), "--out", j, "--scratch", wd],
+                               cwd=sup.HARNESS, env=env, stdout=subprocess.PIPE, stderr=subprocess.PIPE, text=True, timeout=1800)
+            return idx, p.returncode, p.stderr, j
+        except subprocess.TimeoutExpired:
+            return idx, None, "timeout", j
+
+    # build once (serial) so the parallel runs only interpret
+    first = one(idxs[0])
+    results = [first]
+    with ThreadPoolExecutor(max_workers=8) as ex:
+        results += list(ex.map(one, idxs[1:]))
+    ran = 0
+    for idx, rc, err, j in results:
+        if rc is None:
+            res.add_inconclusive("miri-run-timeout")
+            continue
+        if "Undefined Behavior" in err:
+            what = err.split("Undefined Behavior:", 1)[1].strip().splitlines()[0][:200]
+            res.add_violation("miri-ub|c04-case-%d" % (0 if idx == 0 else 1000), f"Miri: Undefined Behavior: {what}", {"stderr": err[-1500:]}, dict(rb, only=idx))
+            continue
+        if rc != 0:
+            res.add_inconclusive("miri-run-failed")
+            res.notes.append(f"miri idx {idx}: exit {rc}: {err[-300:]}")
+            continue
+        before = res.cases
+        res.absorb_journal(j, dict(rb, miri=True))
+        ran += res.cases - before
+    res.add_counter("miri_cases_interpreted", ran)
 
 
 def run(tier, seed, scratch, t0):
@@ -19,8 +68,12 @@ def run(tier, seed, scratch, t0):
         c = res.counters
         res.extras["jenkins_fold_observed"] = "upper" if c.get("jenkins_fold_upper", 0) and not c.get("jenkins_fold_lower", 0) else (
             "lower" if c.get("jenkins_fold_lower", 0) and not c.get("jenkins_fold_upper", 0) else "mixed-or-none")
+    def post_all(res):
+        post(res)
+        if tier == "thorough":
+            _miri_slice(res, tier, seed, scratch)
     return sup.simple_check("C04", "vh-mpq", "c04", tier, seed, scratch, t0, "exploration", RULE, ASSUME,
-                            nshards=8, case_timeout=120, min_cases=300, post=post,
+                            nshards=8, case_timeout=120, min_cases=300, post=post_all,
                             extra_cov={"exhaustive_subspaces": ["crypt table 1280 entries", "fold tables 2x256", "all &str of length <= 2 bytes x 4 types",
                                                                 "all 3-byte UTF-8 scalars x 4 types", "cipher lengths 0..17 x 77 keys"]})
 
